@@ -331,6 +331,13 @@ func (dec *Decoder) ReadReference(p interface{}) {
 		return
 	}
 	o := dec.refer.Read(index)
+	if o == nil {
+		// a placeholder: the referenced item has no value that could be shared
+		if dec.Error == nil {
+			dec.Error = DecodeError("hprose/io: reference index " + strconv.Itoa(index) + " does not refer to a value")
+		}
+		return
+	}
 	src := reflect.TypeOf(o)
 	dest := reflect.TypeOf(p).Elem()
 	if conv := GetConverter(src, dest); conv != nil {
